@@ -2,13 +2,27 @@
 from .common import *
 from . import widthsweep as _ws
 
-HARNESS_BINS_THOROUGH = ["widths"]
+# thorough tier: `widths` answers the unsigned overflowing_mul sweep of gen/widthsweep.py, `c02w` (all digit counts of
+# every digit type, see harness/src/bin/c02w.rs) the sweep of `_sweep` below
+HARNESS_BINS_THOROUGH = ["widths", "c02w"]
 
 OPS = ["overflowing_mul", "checked_mul", "wrapping_mul", "saturating_mul"]
+FORMS = ["vv", "vr", "rv", "rr", "as", "asr"]
+
+# digit counts instantiated by the c02 bin only (`for_config_extra!` in harness/src/bin/c02.rs): around powers
+# of two, odd / prime counts, the neighbours of the 8192-bit limit -- for EVERY digit type, signed and unsigned
+# (changes keyed to one digit count or to one digit type x digit count).  Reduced vocabulary (`lean`, see c02.rs).
+EXTRA_CFGS = ["8x6", "8x10", "8x11", "8x13", "8x15", "8x31", "8x32", "8x33", "8x65", "8x129", "8x1023",
+              "16x6", "16x7", "16x8", "16x15", "16x17", "16x33", "16x255",
+              "32x5", "32x7", "32x8", "32x9", "32x15", "32x17", "32x33", "32x127",
+              "64x6", "64x7", "64x10", "64x11", "64x13", "64x15", "64x17", "64x31", "64x33", "64x127"]
+# digit counts whose instantiations answer the operator forms (`mulop`; `imp!` in c02.rs)
+FORM_NS = (1, 3, 17, 1024)
 
 
 def mul_pair(rng, w, n, signed):
-    """operand pairs whose product straddles the modulus / the sign boundary"""
+    """operand pairs whose product straddles the modulus / the sign boundary
+    (also imported by gen/c04.py, gen/c16.py, gen/c17.py: keep its draws stable; C02 itself uses `mul_pair2`)"""
     W = w * n
     M = 1 << W
     H = M >> 1
@@ -48,41 +62,279 @@ def mul_pair(rng, w, n, signed):
     return "sq", *([value(rng, w, n)[1]] * 2)
 
 
+def _low(rng, w, k):
+    """a k-digit filler: zero, all ones, one, random"""
+    if k <= 0:
+        return 0
+    m = 1 << (w * k)
+    return rng.choice([0, m - 1, 1, rng.randrange(m), rng.randrange(m)])
+
+
+def _sparse(rng, w, top):
+    """digits 0..top, the top one non-zero, most of the others zero"""
+    v = (digit_value(rng, w) or 1) << (w * top)
+    for i in range(top):
+        if rng.random() < 0.3:
+            v |= digit_value(rng, w) << (w * i)
+    return v
+
+
+def _sgn(rng, signed, a, b, W):
+    """signed configurations: the same magnitudes with every combination of signs"""
+    if signed:
+        if rng.random() < 0.5:
+            a = -a
+        if rng.random() < 0.5:
+            b = -b
+    return pat(a, W), pat(b, W)
+
+
+def mul_pair2(rng, w, n, signed):
+    """`mul_pair` plus further GENERAL operand relations (each decides overflow by one digit, one carry or one bit):
+       short-top   digit lengths i + j = n + 1 (no digit pair lands at column >= n): overflow is decided by the last
+                   row carry alone, i.e. by (top digit of a) * (top digit of b) against B (signed: against B/2)
+       ones        (B^i - 1) * (B^j - 1), i + j in {n, n + 1}: maximal carries through every column
+       sparse      few non-zero digits; highest non-zero positions i + j in {n-2, ..., n+2}: the `index >= N` scan of
+                   long_mul sees zero and non-zero digits in every order
+       spow2       +-2^k * +-2^e with k + e in {W-2, W-1, W}: exactly MIN (representable) against exactly -MIN (not)
+       exact       f * ((limit + d) / f) for small / digit-aligned factors f: the product is within f of
+                   2^BITS, of 2^(BITS-1) or of -2^(BITS-1)
+       min*x       MIN on either side, against 0, +-1, +-2, MIN, MAX, MIN+1 and arbitrary values
+       dense       both operands with every digit close to B - 1 or exactly B/2 .. (column sums at their maximum)"""
+    W = w * n
+    M = 1 << W
+    H = M >> 1
+    B = 1 << w
+    c = rng.randrange(16)
+    if c < 4:
+        return mul_pair(rng, w, n, signed)
+    if c == 4:
+        c = 14
+    if c in (5, 6, 7):
+        i = rng.randrange(1, n + 1)
+        j = n + 1 - i
+        lim = B // 2 if (signed and rng.random() < 0.6) else B
+        ta = rng.choice([1, 2, 3, B - 1, B // 2, B // 2 - 1, rng.randrange(1, B), rng.randrange(1, B)])
+        tb = min(B - 1, max(1, lim // ta + rng.randrange(-1, 2)))
+        a = (ta << (w * (i - 1))) | _low(rng, w, i - 1)
+        b = (tb << (w * (j - 1))) | _low(rng, w, j - 1)
+        if rng.random() < 0.5:
+            a, b = b, a
+        return ("short-top",) + _sgn(rng, signed, a, b, W)
+    if c == 8:
+        i = rng.randrange(1, n + 1)
+        j = min(n, max(1, n - i + rng.randrange(0, 2)))
+        return ("ones",) + _sgn(rng, signed, (1 << (w * i)) - 1, (1 << (w * j)) - 1, W)
+    if c in (9, 10):
+        i = rng.randrange(n)
+        j = min(n - 1, max(0, n - 1 - i + rng.randrange(-1, 4)))
+        a, b = _sparse(rng, w, i), _sparse(rng, w, j)
+        if rng.random() < 0.5:
+            a, b = b, a
+        return ("sparse",) + _sgn(rng, signed and rng.random() < 0.5, a, b, W)
+    if c == 11:
+        k = rng.randrange(W)
+        e = min(W - 1, max(0, W - 1 - k + rng.randrange(-1, 2)))
+        return ("spow2",) + _sgn(rng, signed, 1 << k, 1 << e, W)
+    if c in (12, 13):
+        lim = H if (signed and rng.random() < 0.7) else M
+        k = rng.randrange(1, n + 1)
+        f = rng.choice([2, 3, 5, 7, 10, 255, 257, B - 1, B + 1, (1 << (w * k)) - 1, (1 << (w * k)) + 1, 1 << (w * k - 1),
+                        rng.randrange(2, 1 << (w * k))])
+        f = min(f, lim - 1) or 1
+        q = (lim + rng.choice([-f, -1, 0, 0, 1, f - 1, f])) // f
+        a, b = (f, q) if rng.random() < 0.5 else (q, f)
+        return ("exact",) + _sgn(rng, signed, a, b, W)
+    if c == 14:
+        x = rng.choice([0, 1, M - 1, 2, M - 2, H, H - 1, H + 1, 3, M - 3, value(rng, w, n)[1], rng.randrange(M)])
+        return ("min*x", H, x) if rng.random() < 0.5 else ("x*min", x, H)
+    hi = [B - 1, B - 1, B - 2, B // 2, B // 2 - 1, B // 2 + 1]
+    a = sum(rng.choice(hi) << (w * i) for i in range(n))
+    b = sum(rng.choice(hi) << (w * i) for i in range(n))
+    return "dense", a, b
+
+
+def carry_for(rng, w, n, a, b):
+    """carry words for carrying_mul: the addition of the carry just crosses / just does not cross 2^BITS"""
+    M = 1 << (w * n)
+    lo = (a * b) % M
+    c = rng.randrange(7)
+    if c == 0:
+        return M - 1
+    if c in (1, 2):
+        return (M - lo + rng.randrange(-1, 2)) % M
+    if c == 3:
+        return (M - 1 - lo) % M
+    if c == 4:
+        return rng.choice([0, 1])
+    return value(rng, w, n)[1]
+
+
+# every entry point of the `a * b` family, visited in rotation
+NAMED = OPS + ["strict_mul", "mul dbg", "mul rel"]
+ENTRIES = NAMED + ["mulop dbg", "mulop rel"]
+PROJECTIONS = [e for e in ENTRIES if e not in ("overflowing_mul", "saturating_mul")]
+LEAN = {"u": ["overflowing_mul", "mul dbg", "mul rel"], "i": ["overflowing_mul", "saturating_mul", "mul dbg", "mul rel"]}
+
+
+def entries_of(cfg, s="u"):
+    """what the c02 bin instantiates for `cfg` (operator forms / every named method / the reduced set)"""
+    if cfg in EXTRA_CFGS:
+        return LEAN[s]
+    return ENTRIES if wn(cfg)[1] in FORM_NS else NAMED
+
+
+def _entry(rng, k, s, cfg, a, b, entries=None):
+    if entries is None:
+        entries = entries_of(cfg, s)
+    else:
+        ok = entries_of(cfg, s)
+        entries = [e for e in entries if e in ok]
+    e = entries[k % len(entries)]
+    if e.startswith("mulop"):
+        return f"mulop {s}{cfg} {e.split()[1]} {rng.choice(FORMS)} {hx(a)} {hx(b)}"
+    if e.startswith("mul "):
+        return f"mul {s}{cfg} {e.split()[1]} {hx(a)} {hx(b)}"
+    return f"{e} {s}{cfg} {hx(a)} {hx(b)}"
+
+
 def _gen_main(rng, tier):
-    reps = 150 if tier == "thorough" else 20
+    reps = 150 if tier == "thorough" else 30
     for cfg in cfgs(tier):
         w, n = wn(cfg)
-        if n > 40 and tier != "thorough":
-            continue
         for _ in range(reps if n <= 40 else 5):
             for s in "ui":
                 for op in OPS + ["strict_mul"]:
-                    t, a, b = mul_pair(rng, w, n, s == "i")
+                    t, a, b = mul_pair2(rng, w, n, s == "i")
                     yield f"{op} {s}{cfg} {hx(a)} {hx(b)}", t
-                t, a, b = mul_pair(rng, w, n, s == "i")
+                t, a, b = mul_pair2(rng, w, n, s == "i")
                 for mode in ("dbg", "rel"):
                     yield f"mul {s}{cfg} {mode} {hx(a)} {hx(b)}", t
-            t, a, b = mul_pair(rng, w, n, False)
+                if n in FORM_NS:
+                    t, a, b = mul_pair2(rng, w, n, s == "i")
+                    f = rng.choice(FORMS)
+                    for mode in ("dbg", "rel"):
+                        yield f"mulop {s}{cfg} {mode} {f} {hx(a)} {hx(b)}", t
+            t, a, b = mul_pair2(rng, w, n, False)
             yield f"widening_mul u{cfg} {hx(a)} {hx(b)}", t
-            _, c = value(rng, w, n)
-            yield f"carrying_mul u{cfg} {hx(a)} {hx(b)} {hx(c)}", t
+            yield f"carrying_mul u{cfg} {hx(a)} {hx(b)} {hx(carry_for(rng, w, n, a, b))}", t
+            t, a, b = mul_pair2(rng, w, n, False)
+            yield f"carrying_mul u{cfg} {hx(a)} {hx(b)} {hx(carry_for(rng, w, n, a, b))}", t
     if tier == "thorough":
         for s in "ui":
             for op in ["overflowing_mul", "saturating_mul"]:
                 for a in range(256):
                     for b in range(256):
                         yield f"{op} {s}8x1 {hx(a)} {hx(b)}", "exhaustive8"
-        for a in range(256):
-            for b in range(256):
-                yield f"widening_mul u8x1 {hx(a)} {hx(b)}", "exhaustive8"
+
+
+def _extra(rng, tier):
+    """further digit counts of every digit type: EXTRA_CFGS, and in the quick tier also the configurations of the
+    thorough list (the bin instantiates them anyway); every available entry point, signed and unsigned"""
+    k = rng.randrange(len(ENTRIES))
+    more = [c for c in THOROUGH_CFGS if c not in QUICK_CFGS and c not in HUGE_CFGS] if tier != "thorough" else []
+    for cfg in EXTRA_CFGS + more:
+        w, n = wn(cfg)
+        rounds = (12 if tier == "thorough" else 6) if w * n <= 2100 else (2 if tier == "thorough" else 1)
+        for _ in range(rounds):
+            for s in "ui":
+                for _ in range(3):
+                    t, a, b = mul_pair2(rng, w, n, s == "i")
+                    yield _entry(rng, k, s, cfg, a, b), t
+                    k += 1
+            t, a, b = mul_pair2(rng, w, n, False)
+            yield f"widening_mul u{cfg} {hx(a)} {hx(b)}", t
+            t, a, b = mul_pair2(rng, w, n, False)
+            yield f"carrying_mul u{cfg} {hx(a)} {hx(b)} {hx(carry_for(rng, w, n, a, b))}", t
+
+
+def _words(rng, tier):
+    """chains of carrying_mul: a k-word number times one word (the hi word of each step is the next carry)"""
+    for cfg in cfgs(tier) + EXTRA_CFGS + HUGE_CFGS:
+        w, n = wn(cfg)
+        if n > 130 and cfg not in HUGE_CFGS[:1]:
+            continue
+        M = 1 << (w * n)
+        for _ in range(1 if n > 40 else 3):
+            k = rng.choice([0, 1, 2, 3, 4, 7]) if n <= 40 else 2
+            t, a, b = mul_pair2(rng, w, n, False)
+            ws = [a] + [rng.choice([M - 1, 0, value(rng, w, n)[1], rng.randrange(M)]) for _ in range(k)]
+            ws = ws[:k]
+            yield f"mul_words u{cfg} {hx(b)} {hx(carry_for(rng, w, n, a, b))} {','.join(hx(x) for x in ws) or '-'}", "words"
+
+
+def _sweep(rng):
+    """thorough tier: EVERY digit count -- u8 digits N = 1..1024, u64 digits N = 1..128, u32 / u16 digits N = 1..64 --
+    signed and unsigned, through the entry points that have a body of their own (bin `c02w`)"""
+    def one(k, w, n):
+        cfg = f"{w}x{n}"
+        e = k % 6
+        if e == 0:
+            t, a, b = mul_pair2(rng, w, n, True)
+            return f"overflowing_mul i{cfg} {hx(a)} {hx(b)}", "sweep:" + t
+        if e == 1:
+            t, a, b = mul_pair2(rng, w, n, False)
+            return f"widening_mul u{cfg} {hx(a)} {hx(b)}", "sweep:" + t
+        if e == 2:
+            t, a, b = mul_pair2(rng, w, n, False)
+            return f"carrying_mul u{cfg} {hx(a)} {hx(b)} {hx(carry_for(rng, w, n, a, b))}", "sweep:" + t
+        if e == 3:
+            t, a, b = mul_pair2(rng, w, n, True)
+            return f"saturating_mul i{cfg} {hx(a)} {hx(b)}", "sweep:" + t
+        if e == 4:
+            t, a, b = mul_pair2(rng, w, n, False)
+            return f"overflowing_mul u{cfg} {hx(a)} {hx(b)}", "sweep:" + t
+        s = rng.choice("ui")
+        t, a, b = mul_pair2(rng, w, n, s == "i")
+        return f"mul {s}{cfg} {rng.choice(['dbg', 'rel'])} {hx(a)} {hx(b)}", "sweep:" + t
+
+    k = 0
+    for w, top in ((8, 1024), (64, 128), (32, 64), (16, 64)):
+        for n in range(1, top + 1):
+            # 8192-bit requests are slow in the Lean model: one per digit count above 2048 bits, twelve below
+            for _ in range(12 if w * n <= 2048 else 1):
+                yield one(k, w, n)
+                k += 1
+        k += 1
+
+
+def _edges(rng, tier):
+    """the limits of the type against each other, on EVERY instantiated configuration and through every available
+    entry point: 0, +-1, +-2, +-3, MIN, MAX, MIN+1, 2^(W/2) and neighbours, one full digit, the top digit alone"""
+    all_cfgs = list(dict.fromkeys(cfgs(tier) + [c for c in THOROUGH_CFGS if c not in HUGE_CFGS] + EXTRA_CFGS + HUGE_CFGS))
+    for cfg in all_cfgs:
+        w, n = wn(cfg)
+        W = w * n
+        M = 1 << W
+        H = M >> 1
+        h = 1 << (W // 2)
+        E = [0, 1, 2, 3, M - 1, M - 2, M - 3, H, H - 1, H + 1, h, h - 1, pat(h + 1, W), pat(-h, W), (1 << w) - 1,
+             pat(((1 << w) - 1) << (W - w), W), 1 << (W - w), pat((1 << ((W + 1) // 2)) + 1, W)]
+        count = 2 * len(E) ** 2 if W <= 320 else 160 if W <= 1100 else 48 if W <= 2200 else 12
+        if tier == "thorough":
+            count *= 3
+        k = rng.randrange(len(ENTRIES))
+        if count >= 2 * len(E) ** 2:
+            todo = [(s, a, b) for s in "ui" for a in E for b in E]
+        else:
+            todo = [("ui"[i % 2], rng.choice(E), rng.choice(E)) for i in range(count)]
+        for s, a, b in todo:
+            yield _entry(rng, k, s, cfg, a, b), "limits"
+            k += 1
+            if k % 11 == 0 and s == "u":
+                yield f"carrying_mul u{cfg} {hx(a)} {hx(b)} {hx(rng.choice(E))}", "limits"
 
 
 def gen(rng, tier):
     yield from _gen_main(rng, tier)
     if tier == "thorough":
         yield from _ws.mul(rng)
+        yield from _sweep(rng)
     yield from _grid(rng, tier)
     yield from _huge(rng, tier)
+    yield from _extra(rng, tier)
+    yield from _words(rng, tier)
+    yield from _edges(rng, tier)
     yield from _exh8(rng, tier)
 
 
@@ -93,6 +345,11 @@ def _grid(rng, tier):
             for op in ("overflowing_mul", "saturating_mul"):
                 for a, b in grid_pairs(rng, cfg, lim):
                     yield f"{op} {s}{cfg} {hx(a)} {hx(b)}", "edge-grid"
+            # the projections and the operator forms on the same dense set, one entry point per pair
+            k = rng.randrange(len(PROJECTIONS))
+            for a, b in grid_pairs(rng, cfg, lim):
+                yield _entry(rng, k, s, cfg, a, b, PROJECTIONS), "edge-grid"
+                k += 1
         for a, b in grid_pairs(rng, cfg, lim):
             yield f"widening_mul u{cfg} {hx(a)} {hx(b)}", "edge-grid"
             yield f"carrying_mul u{cfg} {hx(a)} {hx(b)} {hx(rng.choice(edge_grid(*wn(cfg))))}", "edge-grid"
@@ -100,28 +357,60 @@ def _grid(rng, tier):
 
 def _huge(rng, tier):
     for cfg in HUGE_CFGS:
+        w, n = wn(cfg)
         vals = huge_values(rng, cfg)
-        k = 0
-        for a in vals[:5]:
-            for b in vals[:3] + vals[6:]:
-                s = "ui"[k % 2]
-                op = ["overflowing_mul", "checked_mul", "wrapping_mul", "saturating_mul"][k % 4]
-                k += 1
-                yield f"{op} {s}{cfg} {hx(a)} {hx(b)}", "huge"
+        pairs = [(a, b) for a in vals[:5] for b in vals[:3] + vals[6:]]
+        if tier != "thorough":
+            pairs = pairs[::3]
+        for k, (a, b) in enumerate(pairs):
+            yield _entry(rng, k, "ui"[k % 2], cfg, a, b), "huge"
         yield f"widening_mul u{cfg} {hx(vals[0])} {hx(vals[1])}", "huge"
         yield f"carrying_mul u{cfg} {hx(vals[1])} {hx(vals[0])} {hx(vals[0])}", "huge"
+        # the structured relations at 8192 bits: products that fit / overflow by one digit, carry or bit
+        k = rng.randrange(len(ENTRIES))
+        for _ in range(28 if tier == "thorough" else 7):
+            for s in "ui":
+                t, a, b = mul_pair2(rng, w, n, s == "i")
+                yield _entry(rng, k, s, cfg, a, b), "huge:" + t
+                k += 1
+        for _ in range(2):
+            t, a, b = mul_pair2(rng, w, n, False)
+            yield f"widening_mul u{cfg} {hx(a)} {hx(b)}", "huge:" + t
+            yield f"carrying_mul u{cfg} {hx(a)} {hx(b)} {hx(carry_for(rng, w, n, a, b))}", "huge:" + t
 
 
 def _exh8(rng, tier):
     """complete enumeration of the 8-bit instantiation (a test of the u8 digit primitives through N = 1)"""
+    edge = [0, 1, 0x7f, 0x80, 0xff]
     if tier == "thorough":
-        return
-    for s in "ui":
-        for op in ['overflowing_mul']:
+        for a in range(256):
+            for b in range(256):
+                for c in edge:
+                    yield f"carrying_mul u8x1 {hx(a)} {hx(b)} {hx(c)}", "exhaustive8"
+    else:
+        for s in "ui":
             for a in range(256):
                 for b in range(256):
-                    yield f"{op} {s}8x1 {hx(a)} {hx(b)}", "exhaustive8"
+                    yield f"overflowing_mul {s}8x1 {hx(a)} {hx(b)}", "exhaustive8"
+    for a in range(256):
+        for b in range(256):
+            yield f"widening_mul u8x1 {hx(a)} {hx(b)}", "exhaustive8"
+            if tier != "thorough":
+                yield f"carrying_mul u8x1 {hx(a)} {hx(b)} {hx(edge[(a * 3 + b) % 5] if (a + b) % 3 else (256 - a * b % 256 + (a % 3) - 1) % 256)}", "exhaustive8"
+
+
+_C02_CFGS = None
 
 
 def ROUTE(line):
-    return _ws.route(line, "c02")
+    """thorough tier: the c02 bin answers its own configurations (shared list + EXTRA_CFGS); of the others, the
+    unsigned overflowing_mul u8xN of gen/widthsweep.py go to the `widths` bin, everything else to `c02w`"""
+    global _C02_CFGS
+    if _C02_CFGS is None:
+        _C02_CFGS = set(THOROUGH_CFGS + HUGE_CFGS + EXTRA_CFGS)
+    op, cfg = line.split(" ", 2)[:2]
+    if cfg[1:] in _C02_CFGS:
+        return "c02"
+    if op == "overflowing_mul" and cfg.startswith("u8x"):
+        return "widths"
+    return "c02w"
